@@ -309,7 +309,7 @@ Lemma process_segment_ok t s : Inv t -> wf_seg s -> exists t' r, process_segment
 Proof.
   intros HI [Hh Hl]. pose proof Hh as (Hsp & Hdp & Hseq & Hack & Hwnd & Hurg).
   unfold process_segment.
-  destruct (match st t with SynSent | Closing => false | _ => _ end) eqn:Ebad; [eauto|].
+  destruct (match st t with SynSent => false | _ => _ end) eqn:Ebad; [eauto|].
   pose proof (ps_ack_inv t (s_hdr s) HI Hh) as H2.
   pose proof (ps_ack_st t (s_hdr s)) as Ea.
   pose proof (ps_ack_same_rcv t (s_hdr s)) as (_ & Rn & Rw & _).
@@ -333,10 +333,9 @@ Proof.
       try (right; right; rewrite !(is_in_rcv_window_ext t t2) by assumption;
            apply negb_false_iff in Ebad; try rewrite Esyn in Ebad;
            eapply seq_ok_assert; try eassumption; [apply HI|unfold MAXTEXT in Hl; lia]).
-    + (* SynSent stays SynSent through the ACK stage *)
-      destruct (st t2); discriminate.
-    + (* Closing: no sequence check, but the text stage does nothing there *)
-      right. left. destruct (st t2); try discriminate Ea; reflexivity.
+    (* only SynSent is left: it stays SynSent through the ACK stage.  (CLOSING is
+       sequence-checked like every synchronised state since fix commit bbbdf8a3.) *)
+    destruct (st t2); discriminate.
 Qed.
 
 (* ------------------------------------------------------------------ *)
